@@ -758,6 +758,6 @@ def run(ctx):
         'spec->code: every transition of the bounded StopWatch graph (16 ops incl. ticks, '
         '4 durations) executed on the real object reached via a BFS tree, plus every path of '
         'length <= %d from the initial states; distinct_nontrivial = graph edges executed '
-        '(distinct (state, op, arg) triples). code->spec: random call sequences of length '
+        '(distinct (state, op, arg) triples); readings that are not whole numbers, a ticking clock, whole-number clocks from 2^53 to 2^63. code->spec: random call sequences of length '
         '30..200 recorded from the real StopWatch and validated line by line with Trace_StopWatch.' % depth)
     ctx.cov['exhaustive'] = True
